@@ -81,7 +81,7 @@ impl Ctl {
             self.log.lock().unwrap().push(label.to_string());
         }
         let gate = self.gate.lock().unwrap().clone();
-        if gate.st.is_some() {
+        if gate.st.is_some() || gate.pipe {
             let filter = self.gate_filter.lock().unwrap().clone();
             if filter.is_empty() || filter.contains(&label) {
                 match gate.pass(format!("storage:{label}")).await {
